@@ -23,6 +23,10 @@ func (g grayish) RGBA() (r, gg, b, a uint32) {
 	return uint32(g.v), uint32(g.v) / 2, uint32(g.v) / 3, 0xffff
 }
 
+type nonsense struct{} // a color.Color whose channels exceed its alpha
+
+func (nonsense) RGBA() (r, g, b, a uint32) { return 0xffff, 0x8000, 0x0000, 0x4000 }
+
 func init() { register("drive-c14", driveC14) }
 
 func driveC14(args []string) error {
@@ -105,6 +109,10 @@ func driveC14(args []string) error {
 		{"gray16", color.Gray16{0xabcd}},
 		{"ycbcr", color.YCbCr{120, 60, 200}},
 		{"custom", grayish{0xbeef}},
+		{"rgba64-invalid", color.RGBA64{0x8000, 0x0100, 0x9000, 0x1000}},
+		{"rgba64-gradient-looking", color.RGBA64{0x0200, 0x4a00, 0x8a00, 0x0000}},
+		{"ptr-rgba-invalid", &color.RGBA{0x00, 0x99, 0x00, 0x88}},
+		{"custom-invalid", nonsense{}},
 	}
 	fullA, fullB := defaultPal(), defaultPal()
 	for i := range fullA {
@@ -134,6 +142,8 @@ func driveC14(args []string) error {
 	}
 	atoms = append(atoms, func() opt { return mkPal(&fullA) }, func() opt { return mkPal(&fullB) })
 
+	var shared *tracedRenderer
+	sharedUses := 0
 	run := func(id string, g []byte, opts []opt) {
 		a0, b0 := fullA, fullB
 		var dopts []decode.DecodeOption
@@ -145,8 +155,14 @@ func driveC14(args []string) error {
 		fl := decFlags{others: false, render: true, opts: dopts, optsJ: jopts, rect: image.Rect(0, 0, 64, 64)}
 		nc, acc := traceDecode(dec.Next(), id, g, fl)
 		count(stats, "options", nc, acc)
-		// the same decode into a traced Renderer
-		t := newTracedRenderer(rend.Next(), id, image.Rect(0, 0, 64, 64))
+		// the same decode into a traced Renderer; one Renderer (and rasteriser) serves eight consecutive decodes
+		if shared == nil || sharedUses >= 8 {
+			shared = newTracedRenderer(rend.Next(), id, image.Rect(0, 0, 64, 64))
+			shared.trim = true
+			sharedUses = 0
+		}
+		sharedUses++
+		t := shared
 		rec := &Recorder{OnCall: func(c *Call) { t.do(*c) }, Limit: 1}
 		if err := decode.Decode(rec, g, dopts...); err != nil {
 			stats["options.renderr"]++
@@ -159,16 +175,25 @@ func driveC14(args []string) error {
 			fullA, fullB = a0, b0
 		}
 	}
-	// every option colour model at every index, alone
-	for gi, g := range graphics {
-		for _, c := range cols {
-			for _, i := range []int{0, 5, 63} {
-				if (gi+i)%3 == 0 || thorough() {
-					run(fmt.Sprintf("opt/%d/at%d/%s", gi, i, c.name), g, []opt{mkAt(i, c)})
+	// every option colour model at every index, alone; the graphics follow each other under the same option
+	// list, so that a reused Renderer sees an identical palette after registers were overwritten
+	for _, c := range cols {
+		for _, i := range []int{0, 5, 63} {
+			o := mkAt(i, c)
+			for gi, g := range graphics {
+				if (gi+i)%3 == 0 || gi%3 == 1 || thorough() {
+					run(fmt.Sprintf("opt/%d/at%d/%s", gi, i, c.name), g, []opt{o})
 				}
 			}
 		}
-		run(fmt.Sprintf("opt/%d/none", gi), g, nil)
+	}
+	for round := 0; round < 2; round++ {
+		for gi, g := range graphics {
+			run(fmt.Sprintf("opt/%d/none/%d", gi, round), g, nil)
+		}
+		for gi := len(graphics) - 1; gi >= 0; gi-- {
+			run(fmt.Sprintf("opt/%d/fullA/%d", gi, round), graphics[gi], []opt{mkPal(&fullA)})
+		}
 	}
 	// all option lists of length <= 3 over the five atoms (colour models drawn at random)
 	for gi, g := range graphics {
